@@ -134,8 +134,15 @@ def run_impl(inp, work):
             if r[0] == 'err':
                 out['calls'].append({'err': r[1], 'cls': r[2]})
                 continue
-            d = dest[c['name'].replace('-', '_')]
             ret = r[1]
+            d = dest.get(c['name'].replace('-', '_'))
+            if not isinstance(d, h5py.Dataset):
+                # nothing (or no dataset) under the name in the destination: describe what the call returned instead,
+                # so that the oracle reports `destination` rather than the harness failing
+                if not isinstance(ret, h5py.Dataset):
+                    out['calls'].append({'err': 'other', 'cls': 'returned %s and left no dataset under the name' % type(ret).__name__})
+                    continue
+                d = ret.file[ret.name]
             returned_ok = type(ret).__name__ == 'USIDataset' and ret.name == d.name and ret.file.filename == d.file.filename
             ff = d.file
             rec = _desc_dset(ff, d, src_anc)
